@@ -101,6 +101,10 @@ class RuntimeJudge(Judge):
             return self.instance(v['c'])
         if k == 'memoryview':
             return memoryview(b'ab')
+        if k == 'set':
+            return set(range(v['n']))
+        if k == 'intdict':
+            return {i: i for i in range(v['n'])}
         raise ValueError(v)
 
     def eq_norm(self, expected, got, lenient_seq=False):
